@@ -218,24 +218,49 @@ def r_anchor(P, chk):
         chk.violation(rid, "anchor:label:process_header_to_links", ph.where(), "the automatic cross-reference target of a heading is "
                       "built with %s on the whole heading, while the id placed on the heading comes from label_from_header (Setext "
                       "underline trimming, random labels): the link does not resolve" % lf)
-    # numbering: count is written only by mark_*_as_used (and footnote_new's -1)
-    writers = {}
+    # numbering: a note's number is the size of a used-note stack right after the note was pushed onto it (or -1 = unused)
+    from .prog import resolve_key as _rk
+    n_cnt = 0
     for f in P.all_funcs:
         if not P.first_party(f):
             continue
         for x in f.walk():
-            if x["k"] == "BinaryOperator" and x["op"] == "=":
-                l = strip(x["c"][0])
-                if l is not None and l["k"] == "MemberExpr" and l["n"] == "count" and l.get("rec") == "footnote":
-                    writers.setdefault(f.name, []).append(x)
-    ok = bool(writers) and all(n == "footnote_new" or re.match(r"(mark_\w+_as_used|\w+_from_bracket)$", n) for n in writers)
-    chk.obligation(rid, "footnote.count is written only by footnote_new, mark_*_as_used and *_from_bracket (%s)" % sorted(writers), ok)
-    if not ok:
-        chk.violation(rid, "anchor:count", "writer.c", "footnote.count is written by %s" % sorted(writers))
+            if x["k"] != "BinaryOperator" or x["op"] != "=":
+                continue
+            l = strip(x["c"][0])
+            if l is None or l["k"] != "MemberExpr" or l["n"] != "count" or l.get("rec") != "footnote":
+                continue
+            n_cnt += 1
+            note = key(l["c"][0])
+            rk = key(x["c"][1])
+            ok = const_value(x["c"][1]) == -1
+            if not ok:
+                pushes = [c for c in f.calls("stack_push") if len(c["c"]) > 2 and key(c["c"][2]) == note and f.cfg.dominates(c["i"], x["i"])]
+                for p in pushes:
+                    sz = key(p["c"][1]) + "->size"
+                    if rk == sz or _rk(f, x["c"][1]) == _rk(f, p["c"][1]) + "->size":
+                        ok = True
+                    # through a variable / out-parameter that was set to the size after the push
+                    for y in f.walk():
+                        if y["k"] == "BinaryOperator" and y["op"] == "=" and key(y["c"][0]) == rk and key(y["c"][1]) == sz \
+                                and f.cfg.dominates(p["i"], y["i"]) and f.cfg.dominates(y["i"], x["i"]):
+                            ok = True
+            chk.obligation(rid, "%s %s: %s->count = %s is -1 or the size of the stack the note was just pushed onto" % (
+                f.where(x), f.name, note, rk), ok)
+            if not ok:
+                chk.violation(rid, "anchor:count:%s" % f.name, f.where(x), "%s sets %s->count = %s, which is not the size of a used-note "
+                              "stack right after pushing that note: call numbers and list positions can disagree" % (f.name, note, rk))
+    chk.floor(rid, n_cnt, 2, "stores into footnote.count")
+    from .prog import single_assignment_locals as _sal
     for fn, stackname in (("mmd_export_footnote_list_html", "used_footnotes"), ("mmd_export_citation_list_html", "used_citations"),
                           ("mmd_export_glossary_list_html", "used_glossaries")):
         f = P.func(fn, "html.c")
-        okp = any(key(c["c"][1]).endswith("->" + stackname) for c in f.calls("stack_peek_index"))
+
+        def stack_of(e, f=f):
+            k = key(e)
+            init = _sal(f).get(k)
+            return key(init) if init is not None else k
+        okp = any(stack_of(c["c"][1]).endswith("->" + stackname) for c in f.calls("stack_peek_index"))
         chk.obligation(rid, "%s iterates scratch->%s (the stack that assigns the numbers)" % (fn, stackname), okp)
         if not okp:
             chk.violation(rid, "anchor:list:%s" % fn, f.where(), "%s does not iterate scratch->%s" % (fn, stackname))
